@@ -1,6 +1,8 @@
-(* The fragment {sleep(d), sleep_until(t), log} of the task scripts of coq/Timer/Model.v:
-   what the property demands of a task (exp_run), and what one poll of such a task does. *)
-From Coq Require Import List NArith Bool Lia ZifyBool.
+(* The fragment {sleep, sleep_until, log, reset / drop of a pinned sleep, timeout(d, sleep x),
+   interval new / tick / drop, keep-alive select (step 13)} of the task scripts of
+   coq/Timer/Model.v: what the property demands of a task (exp_run), and what one poll of
+   such a task does (frag_run, poll_ok). *)
+From Coq Require Import List Arith NArith Bool Lia ZifyBool.
 From DesVerif Require Import Common.Codec CQueue.Spec Timer.Driver Timer.QueueLemmas Timer.Inv Timer.Futures Timer.FutureLaws Timer.TempOps Timer.Model.
 Import ListNotations.
 Open Scope N_scope.
@@ -12,45 +14,115 @@ Definition frag_step (s : step) : Prop :=
   | SReset _ d1 d2 => d1 < FARK /\ d2 < FARK
   | SDropSleep d => d < FARK
   | STimeout d (ISleep x) => d < FARK /\ x < FARK
+  | SSelect _ a b => a < FARK /\ b < FARK
+  | SIvNew p _ => 0 < p
+  | SIvTick | SIvDrop => True
+  | SKeep _ _ d2 x d3 => d2 < FARK /\ x < FARK /\ d3 < FARK
   | _ => False
   end.
 
+(* select! over sleep(a) and sleep(b): the branch that is reported; an unbiased select whose branches
+   are due at the same instant may take either, which the scripts log as 2 *)
+Definition sel_code (biased : bool) (a b : N) : N :=
+  if a <=? b then (if biased || negb (a =? b) then 0 else 2) else 1.
+
+(* what the log depends on of an interval: (deadline of the next tick, period, behaviour) *)
+Definition ivs := option (N * N * behaviour).
+
+Definition iv_abs (iv : option interval) : ivs :=
+  match iv with Some i => Some (deadline (iv_delay i), iv_period i, iv_beh i) | None => None end.
+
 (* the log the property demands of a task that is at instant [now] with [steps] to go:
    every await returns at exactly its deadline; a reset Sleep at its NEW deadline; polling and
-   dropping a Sleep takes no time *)
-Fixpoint exp_run (now : N) (steps : list step) : list N :=
+   dropping a Sleep takes no time.  tick() of an interval whose next tick is due at [nx]
+   returns at max(now, nx) -- at once if the tick was missed -- with the value nx, and the
+   following tick is due at tick_next (Burst: nx + period always; Delay: now + period and
+   Skip: the next multiple of the period after now, both only when the tick was taken more
+   than 5 ms late); tick() without an interval is logged as [now; 0] *)
+Fixpoint exp_run (now : N) (iv : ivs) (steps : list step) : list N :=
   match steps with
   | [] => []
-  | SSleep d :: r => (now + d) :: exp_run (now + d) r
-  | SSleepUntil t :: r => N.max now t :: exp_run (N.max now t) r
-  | SReset _ _ d2 :: r => (now + d2) :: exp_run (now + d2) r
-  | STimeout d (ISleep x) :: r => (now + N.min x d) :: b2n (x <=? d) :: exp_run (now + N.min x d) r
-  | _ :: r => now :: exp_run now r
+  | SSleep d :: r => (now + d) :: exp_run (now + d) iv r
+  | SSleepUntil t :: r => N.max now t :: exp_run (N.max now t) iv r
+  | SReset _ _ d2 :: r => (now + d2) :: exp_run (now + d2) iv r
+  | STimeout d (ISleep x) :: r => (now + N.min x d) :: b2n (x <=? d) :: exp_run (now + N.min x d) iv r
+  | SSelect biased a b :: r => (now + N.min a b) :: sel_code biased a b :: exp_run (now + N.min a b) iv r
+  | SIvNew p b :: r => exp_run now (Some (now, p, b)) r
+  | SIvTick :: r =>
+    match iv with
+    | Some (nx, p, b) => N.max now nx :: nx :: exp_run (N.max now nx) (Some (tick_next b nx (N.max now nx) p, p, b)) r
+    | None => now :: 0 :: exp_run now None r
+    end
+  | SIvDrop :: r => exp_run now None r
+  | SKeep rearm _ d2 x d3 :: r =>
+    (* select! { biased; the kept timer (armed for now + d2) => 0, sleep(x) => 1 }: the kept timer
+       wins a tie; on 1 it is re-armed for d3 more and awaited (rearm) or dropped *)
+    if d2 <=? x then (now + d2) :: 0 :: exp_run (now + d2) iv r
+    else let e := now + x + (if rearm then d3 else 0) in (now + x) :: 1 :: e :: exp_run e iv r
+  | _ :: r => now :: exp_run now iv r
   end.
 
+(* outside of tick().await the Sleep of the interval is not registered *)
+Definition iv_idle (iv : option interval) : Prop :=
+  match iv with Some i => handle (iv_delay i) = None | None => True end.
+
 (* the await states of the fragment: the Sleeps they hold (all registered while the task is
-   blocked), the instant they complete, and what the task logs then *)
-Definition aw_held (a : aw) : list sleep := held_sleeps (Some a) None.
+   blocked), the instant they complete, what the task logs then, and the interval afterwards *)
+Definition aw_held (a : aw) (iv : option interval) : list sleep := held_sleeps (Some a) iv.
 
-Definition aw_kind (a : aw) : Prop :=
-  match a with AwSleep _ => True | AwTimeout (VSleep _) _ => True | _ => False end.
+Definition aw_kind (a : aw) (iv : option interval) : Prop :=
+  match a with
+  | AwSleep _ => iv_idle iv
+  | AwTimeout (VSleep _) _ => iv_idle iv
+  | AwSelect _ tie sa sb => iv_idle iv /\ tie = (deadline sa =? deadline sb)
+  | AwTick => iv <> None
+  | AwKeep _ d3 _ _ => iv_idle iv /\ d3 < FARK
+  | AwThen _ _ => iv_idle iv
+  | _ => False
+  end.
 
-Definition aw_wake (a : aw) : N :=
+Definition aw_wake (a : aw) (iv : option interval) : N :=
   match a with
   | AwSleep s => deadline s
   | AwTimeout (VSleep s) dl => N.min (deadline s) (deadline dl)
+  | AwSelect _ _ sa sb => N.min (deadline sa) (deadline sb)
+  | AwTick => match iv with Some i => deadline (iv_delay i) | None => 0 end
+  | AwKeep _ _ s sx => N.min (deadline s) (deadline sx)
+  | AwThen _ s => deadline s
   | _ => 0
   end.
 
-Definition aw_rec (a : aw) : list N :=
+(* the instant the await completes: the first wake-up, except for the re-armed kept timer *)
+Definition aw_end (a : aw) (iv : option interval) : N :=
+  match a with
+  | AwKeep rearm d3 s sx => if deadline s <=? deadline sx then deadline s else deadline sx + (if rearm then d3 else 0)
+  | _ => aw_wake a iv
+  end.
+
+Definition aw_rec (a : aw) (iv : option interval) : list N :=
   match a with
   | AwSleep s => [deadline s]
   | AwTimeout (VSleep s) dl => [N.min (deadline s) (deadline dl); b2n (deadline s <=? deadline dl)]
+  | AwSelect biased _ sa sb => [N.min (deadline sa) (deadline sb); sel_code biased (deadline sa) (deadline sb)]
+  | AwTick => match iv with Some i => [deadline (iv_delay i); deadline (iv_delay i)] | None => [] end
+  | AwKeep rearm d3 s sx =>
+    if deadline s <=? deadline sx then [deadline s; 0] else [deadline sx; 1; deadline sx + (if rearm then d3 else 0)]
+  | AwThen pre s => pre ++ [deadline s]
   | _ => []
   end.
 
+Definition iv_next (i : interval) (d : N) : interval :=
+  {| iv_delay := {| deadline := d; sid := sid (iv_delay i); handle := None |}; iv_period := iv_period i; iv_beh := iv_beh i |}.
+
+Definition iv_after (a : aw) (iv : option interval) : option interval :=
+  match a, iv with
+  | AwTick, Some i => Some (iv_next i (deadline (iv_delay i) + iv_period i))
+  | _, _ => iv
+  end.
+
 (* ids of the held Sleeps registered under deadline x, in registration order *)
-Definition new_at (a : aw) (x : N) : list N := map sid (filter (fun s => deadline s =? x) (aw_held a)).
+Definition new_at (a : aw) (iv : option interval) (x : N) : list N :=
+  map sid (filter (fun s => deadline s =? x) (aw_held a iv)).
 
 Definition reg (id d : N) : sleep := {| deadline := d; sid := id; handle := Some d |}.
 
@@ -66,63 +138,133 @@ Definition prep_drv (now nid : N) (st : step) (dr : driver) : driver :=
   | STimeout d (ISleep x) =>
     (* only when the delay is due at once (d = 0) while the value is not: the value Sleep was registered and is dropped *)
     if (now <? now + x) && negb (now <? dl now d) then drop_entry nid (now + x) (register nid (now + x) dr) else dr
+  | SSelect _ a b =>
+    (* only when sleep(b) is due at once (b = 0) while sleep(a) is not: sleep(a) was registered and is dropped *)
+    if (now <? dl now a) && negb (now <? dl now b) then drop_entry nid (dl now a) (register nid (dl now a) dr) else dr
+  | SKeep rearm d0 d2 x d3 =>
+    (* the kept timer is created, polled, reset to now + d2; if then sleep(x) is due at once (x = 0) while the
+       kept timer is not, the kept timer -- registered by the select -- is reset again or dropped *)
+    let dr2 := snd (reset_prep now true (dl now d0) (dl now d2) nid dr) in
+    if (now <? dl now d2) && negb (now <? now + x) then
+      if rearm then reset_entry nid (dl now d2) (dl now d3) (register nid (dl now d2) dr2)
+      else drop_entry nid (dl now d2) (register nid (dl now d2) dr2)
+    else dr2
   | _ => dr
   end.
 
-(* one poll of a task that is not awaiting anything: (log entries, the Sleep it blocks on
-   with the steps still to go, next Sleep id, the driver afterwards) *)
-Fixpoint frag_run (now nid : N) (steps : list step) (dr : driver) : list N * option (aw * list step) * N * driver :=
+Definition iv_reg (i : interval) : interval :=
+  {| iv_delay := reg (sid (iv_delay i)) (deadline (iv_delay i)); iv_period := iv_period i; iv_beh := iv_beh i |}.
+
+(* one poll of a task that is not awaiting anything: (log entries, the await state it blocks in
+   with its interval and the steps still to go, next Sleep id, the driver afterwards) *)
+Fixpoint frag_run (now nid : N) (iv : option interval) (steps : list step) (dr : driver)
+  : list N * option (aw * option interval * list step) * N * driver :=
   match steps with
   | [] => ([], None, nid, dr)
   | st :: r =>
     match st with
-    | SLog => let '(o, b, n, d') := frag_run now nid r dr in (now :: o, b, n, d')
-    | SDropSleep _ => let '(o, b, n, d') := frag_run now (nid + 1) r (prep_drv now nid st dr) in (now :: o, b, n, d')
+    | SLog => let '(o, b, n, d') := frag_run now nid iv r dr in (now :: o, b, n, d')
+    | SDropSleep _ => let '(o, b, n, d') := frag_run now (nid + 1) iv r (prep_drv now nid st dr) in (now :: o, b, n, d')
     | SSleep _ | SSleepUntil _ | SReset _ _ _ =>
       let dr1 := prep_drv now nid st dr in
       if now <? dl_of now st
-      then ([], Some (AwSleep (reg nid (dl_of now st)), st :: r), nid + 1, register nid (dl_of now st) dr1)
-      else let '(o, b, n, d') := frag_run now (nid + 1) r dr1 in (now :: o, b, n, d')
+      then ([], Some (AwSleep (reg nid (dl_of now st)), iv, st :: r), nid + 1, register nid (dl_of now st) dr1)
+      else let '(o, b, n, d') := frag_run now (nid + 1) iv r dr1 in (now :: o, b, n, d')
     | STimeout d (ISleep x) =>
       if (now <? now + x) && (now <? dl now d)
-      then ([], Some (AwTimeout (VSleep (reg nid (now + x))) (reg (nid + 1) (dl now d)), st :: r), nid + 2,
+      then ([], Some (AwTimeout (VSleep (reg nid (now + x))) (reg (nid + 1) (dl now d)), iv, st :: r), nid + 2,
             register (nid + 1) (dl now d) (register nid (now + x) dr))
-      else let '(o, b, n, d') := frag_run now (nid + 2) r (prep_drv now nid st dr) in
+      else let '(o, b, n, d') := frag_run now (nid + 2) iv r (prep_drv now nid st dr) in
            (now :: b2n (negb (now <? now + x)) :: o, b, n, d')
+    | SSelect biased a b =>
+      if (now <? dl now a) && (now <? dl now b)
+      then ([], Some (AwSelect biased (a =? b) (reg nid (dl now a)) (reg (nid + 1) (dl now b)), iv, st :: r), nid + 2,
+            register (nid + 1) (dl now b) (register nid (dl now a) dr))
+      else let '(o, b', n, d') := frag_run now (nid + 2) iv r (prep_drv now nid st dr) in
+           (now :: (if now <? dl now a then 1 else if biased || negb (a =? b) then 0 else 2) :: o, b', n, d')
+    | SKeep rearm d0 d2 x d3 =>
+      let drp := prep_drv now nid st dr in
+      if now <? dl now d2 then
+        if now <? now + x then
+          ([], Some (AwKeep rearm d3 (reg nid (dl now d2)) (reg (nid + 1) (now + x)), iv, st :: r), nid + 2,
+           register (nid + 1) (now + x) (register nid (dl now d2) drp))
+        else if rearm && (now <? dl now d3) then
+          ([], Some (AwThen [now; 1] (reg nid (dl now d3)), iv, st :: r), nid + 2, register nid (dl now d3) drp)
+        else let '(o, b, n, d') := frag_run now (nid + 2) iv r drp in (now :: 1 :: now :: o, b, n, d')
+      else let '(o, b, n, d') := frag_run now (nid + 2) iv r drp in (now :: 0 :: o, b, n, d')
+    | SIvNew p bh => frag_run now (nid + 1) (Some (interval_new now p bh nid)) r dr
+    | SIvDrop => frag_run now nid None r dr
+    | SIvTick =>
+      match iv with
+      | None => let '(o, b, n, d') := frag_run now nid None r dr in (now :: 0 :: o, b, n, d')
+      | Some i =>
+        let nx := deadline (iv_delay i) in
+        if now <? nx
+        then ([], Some (AwTick, Some (iv_reg i), st :: r), nid, register (sid (iv_delay i)) nx dr)
+        else let '(o, b, n, d') := frag_run now nid (Some (iv_next i (tick_next (iv_beh i) nx now (iv_period i)))) r dr in
+             (now :: nx :: o, b, n, d')
+      end
     | _ => ([], None, nid, dr)
     end
   end.
 
-Definition fr_steps (b : option (aw * list step)) : list step := match b with Some (_, l) => l | None => [] end.
-Definition fr_cur (b : option (aw * list step)) : option aw := match b with Some (a, _) => Some a | None => None end.
+Definition fr_steps (b : option (aw * option interval * list step)) : list step := match b with Some (_, _, l) => l | None => [] end.
+Definition fr_cur (b : option (aw * option interval * list step)) : option aw := match b with Some (a, _, _) => Some a | None => None end.
+Definition fr_iv (b : option (aw * option interval * list step)) : option interval := match b with Some (_, iv, _) => iv | None => None end.
 
 Lemma dl_fin now d : d < FARK -> dl now d = now + d.
 Proof. intros H. unfold dl. replace (FARK <=? d) with false by lia. reflexivity. Qed.
 
-Lemma run_steps_frag now m k steps : Forall frag_step steps -> forall dr nid lg mail,
-  run_steps now m k steps None None dr nid lg mail =
-  let '(o, b, n, d') := frag_run now nid steps dr in
-  (fr_steps b, fr_cur b, None, d', n, lg ++ o, false, mail).
+Lemma iv_drop_idle iv dr : iv_idle iv -> iv_drop iv dr = dr.
+Proof. destruct iv as [i|]; [|reflexivity]. cbn [iv_idle iv_drop]. unfold sleep_drop. intros ->. reflexivity. Qed.
+
+Lemma run_steps_frag now m k steps : Forall frag_step steps -> forall iv dr nid lg mail, iv_idle iv ->
+  run_steps now m k steps None iv dr nid lg mail =
+  let '(o, b, n, d') := frag_run now nid iv steps dr in
+  (fr_steps b, fr_cur b, fr_iv b, d', n, lg ++ o, false, mail).
 Proof.
-  induction 1 as [|st r Hst Hr IH]; intros dr nid lg mail.
-  - cbn [run_steps frag_run fr_steps fr_cur iv_drop]. rewrite app_nil_r. reflexivity.
+  induction 1 as [|st r Hst Hr IH]; intros iv dr nid lg mail Hi.
+  - cbn [run_steps frag_run fr_steps fr_cur fr_iv]. rewrite (iv_drop_idle iv dr Hi), app_nil_r. reflexivity.
   - destruct st; try contradiction; cbn [run_steps start_step start_step0 poll_aw poll_aw0 fst snd frag_run dl_of prep_drv].
     + unfold sleep_poll, sleep_new. cbn [deadline handle sid].
-      destruct (now <? now + d); cbn [fr_steps fr_cur]; [rewrite app_nil_r; reflexivity|].
-      rewrite IH. destruct (frag_run now (nid + 1) r dr) as [[[o b] n] d']. rewrite <- app_assoc. reflexivity.
+      destruct (now <? now + d); cbn [fr_steps fr_cur fr_iv]; [rewrite app_nil_r; reflexivity|].
+      rewrite (IH iv _ _ _ _ Hi). destruct (frag_run now (nid + 1) iv r dr) as [[[o b] n] d']. rewrite <- app_assoc. reflexivity.
     + unfold sleep_poll, sleep_new. cbn [deadline handle sid].
-      destruct (now <? t); cbn [fr_steps fr_cur]; [rewrite app_nil_r; reflexivity|].
-      rewrite IH. destruct (frag_run now (nid + 1) r dr) as [[[o b] n] d']. rewrite <- app_assoc. reflexivity.
+      destruct (now <? t); cbn [fr_steps fr_cur fr_iv]; [rewrite app_nil_r; reflexivity|].
+      rewrite (IH iv _ _ _ _ Hi). destruct (frag_run now (nid + 1) iv r dr) as [[[o b] n] d']. rewrite <- app_assoc. reflexivity.
     + (* timeout around a sleep *)
       destruct v as [x|]; [|contradiction].
       cbn [run_steps start_step start_step0 poll_aw poll_aw0 fst snd frag_run prep_drv]. unfold timeout_poll, vpoll_m. cbn [fst snd vpoll]. unfold sleep_poll, sleep_new. cbn [deadline handle sid].
       destruct (now <? now + x) eqn:Ex; cbn [andb negb].
-      * destruct (now <? dl now d) eqn:Ed; cbn [fst snd self_wakes fr_steps fr_cur reg].
+      * destruct (now <? dl now d) eqn:Ed; cbn [fst snd self_wakes fr_steps fr_cur fr_iv reg].
         -- rewrite app_nil_r. reflexivity.
         -- unfold sleep_drop, vdrop. cbn [handle sid].
-           rewrite IH. destruct (frag_run now (nid + 2) r _) as [[[o b] n] d']. rewrite <- app_assoc. reflexivity.
+           rewrite (IH iv _ _ _ _ Hi). destruct (frag_run now (nid + 2) iv r _) as [[[o b] n] d']. rewrite <- app_assoc. reflexivity.
       * cbn [fst snd vdrop]. unfold sleep_drop. cbn [handle].
-        rewrite IH. destruct (frag_run now (nid + 2) r dr) as [[[o b] n] d']. rewrite <- app_assoc. reflexivity.
+        rewrite (IH iv _ _ _ _ Hi). destruct (frag_run now (nid + 2) iv r dr) as [[[o b] n] d']. rewrite <- app_assoc. reflexivity.
+    + (* select over two sleeps *)
+      destruct Hst as [Ha Hb]. rewrite (dl_fin now a Ha), (dl_fin now b Hb).
+      unfold sleep_poll, sleep_new. cbn [deadline handle sid].
+      destruct (now <? now + a) eqn:Ea; cbn [andb negb].
+      * destruct (now <? now + b) eqn:Eb; cbn [fst snd fr_steps fr_cur fr_iv reg].
+        -- rewrite app_nil_r. reflexivity.
+        -- unfold sleep_drop. cbn [handle sid]. replace (a =? b) with false by lia. rewrite orb_true_r.
+           rewrite (IH iv _ _ _ _ Hi). destruct (frag_run now (nid + 2) iv r _) as [[[o b'] n] d']. rewrite <- app_assoc. reflexivity.
+      * cbn [fst snd]. unfold sleep_drop. cbn [handle].
+        rewrite (IH iv _ _ _ _ Hi). destruct (frag_run now (nid + 2) iv r dr) as [[[o b'] n] d']. rewrite <- app_assoc. reflexivity.
+    + (* a new interval: the old one, idle, is dropped *)
+      rewrite (iv_drop_idle iv dr Hi). rewrite IH; [|reflexivity]. reflexivity.
+    + (* tick *)
+      destruct iv as [[[dd ii hh] pp bb]|]; cbn [iv_idle iv_delay handle] in Hi.
+      * subst hh. unfold poll_tick, sleep_poll. cbn [iv_delay iv_period iv_beh deadline handle sid].
+        destruct (now <? dd); cbn [fr_steps fr_cur fr_iv].
+        -- rewrite app_nil_r. reflexivity.
+        -- unfold sleep_reset. cbn [deadline handle sid fst snd].
+           rewrite IH; [|reflexivity]. unfold iv_next. cbn [iv_delay iv_period iv_beh sid].
+           destruct (frag_run now nid _ r dr) as [[[o b] n] d']. rewrite <- app_assoc. reflexivity.
+      * rewrite IH; [|exact I]. destruct (frag_run now nid None r dr) as [[[o b] n] d']. rewrite <- app_assoc. reflexivity.
+    + (* the interval, idle, is dropped *)
+      rewrite (iv_drop_idle iv dr Hi). rewrite IH; [|exact I]. reflexivity.
     + (* reset *)
       unfold reset_prep.
       destruct (if polled then let '(_, s1, dr1) := sleep_poll now (sleep_new (dl now d1) nid) dr in (s1, dr1)
@@ -132,12 +274,33 @@ Proof.
         pose proof (sleep_poll_sid now (sleep_new (dl now d1) nid) dr) as Hs.
         destruct (sleep_poll now (sleep_new (dl now d1) nid) dr) as [[r0 s1'] dr1']. injection E1 as <- _. exact Hs. }
       unfold sleep_reset. cbn [snd fst poll_aw poll_aw0]. unfold sleep_poll. cbn [deadline handle sid]. rewrite Hsid.
-      destruct (now <? dl now d2); cbn [fr_steps fr_cur fst snd]; [rewrite app_nil_r; reflexivity|].
-      rewrite IH. destruct (frag_run now (nid + 1) r _) as [[[o b] n] d']. rewrite <- app_assoc. reflexivity.
+      destruct (now <? dl now d2); cbn [fr_steps fr_cur fr_iv fst snd]; [rewrite app_nil_r; reflexivity|].
+      rewrite (IH iv _ _ _ _ Hi). destruct (frag_run now (nid + 1) iv r _) as [[[o b] n] d']. rewrite <- app_assoc. reflexivity.
     + (* drop *)
       destruct (sleep_poll now (sleep_new (dl now d) nid) dr) as [[r0 s1] dr1]. cbn [fst snd].
-      rewrite IH. destruct (frag_run now (nid + 1) r (sleep_drop s1 dr1)) as [[[o b] n] d']. rewrite <- app_assoc. reflexivity.
-    + rewrite IH. destruct (frag_run now nid r dr) as [[[o b] n] d']. rewrite <- app_assoc. reflexivity.
+      rewrite (IH iv _ _ _ _ Hi). destruct (frag_run now (nid + 1) iv r (sleep_drop s1 dr1)) as [[[o b] n] d']. rewrite <- app_assoc. reflexivity.
+    + rewrite (IH iv _ _ _ _ Hi). destruct (frag_run now nid iv r dr) as [[[o b] n] d']. rewrite <- app_assoc. reflexivity.
+    + (* keep-alive select *)
+      unfold reset_prep, sleep_poll, sleep_new, sleep_reset. cbn [deadline handle sid fst snd].
+      destruct (now <? dl now d0); cbn [deadline handle sid fst snd poll_aw poll_aw0]; unfold sleep_poll; cbn [deadline handle sid];
+      (destruct (now <? dl now d2) eqn:E2; cbn [andb negb];
+       [destruct (now <? now + x) eqn:Ex; cbn [andb negb fst snd];
+        [cbn [fr_steps fr_cur fr_iv reg]; rewrite app_nil_r; reflexivity|
+         destruct rearm; cbn [andb];
+         [unfold sleep_reset, sleep_drop; cbn [deadline handle sid fst snd]; unfold sleep_poll; cbn [deadline handle sid];
+          destruct (now <? dl now d3) eqn:E3; cbn [fr_steps fr_cur fr_iv reg fst snd];
+          [rewrite app_nil_r; reflexivity|
+           rewrite (IH iv _ _ _ _ Hi);
+           match goal with |- context [frag_run now (nid + 2) iv r ?D] => destruct (frag_run now (nid + 2) iv r D) as [[[o b] n] d'] end;
+           rewrite <- app_assoc; reflexivity]|
+          unfold sleep_drop; cbn [deadline handle sid fst snd];
+          rewrite (IH iv _ _ _ _ Hi);
+          match goal with |- context [frag_run now (nid + 2) iv r ?D] => destruct (frag_run now (nid + 2) iv r D) as [[[o b] n] d'] end;
+          rewrite <- app_assoc; reflexivity]]|
+        unfold sleep_drop; cbn [deadline handle sid fst snd];
+        rewrite (IH iv _ _ _ _ Hi);
+        match goal with |- context [frag_run now (nid + 2) iv r ?D] => destruct (frag_run now (nid + 2) iv r D) as [[[o b] n] d'] end;
+        rewrite <- app_assoc; reflexivity]).
 Qed.
 
 (* the task is polled when the future it awaits completes: at its wake instant *)
@@ -145,20 +308,37 @@ Definition aw_done (t : N) (a : aw) (dr : driver) : driver :=
   match a with
   | AwTimeout (VSleep s) dl =>
     if deadline s <=? t then drop_entry (sid dl) (deadline dl) dr else drop_entry (sid s) (deadline s) dr
+  | AwSelect _ _ sa sb =>
+    if deadline sa <=? t then drop_entry (sid sb) (deadline sb) dr else drop_entry (sid sa) (deadline sa) dr
+  | AwKeep rearm d3 s sx =>
+    if deadline s <=? t then drop_entry (sid sx) (deadline sx) dr
+    else if rearm then reset_entry (sid s) (deadline s) (dl t d3) dr
+         else drop_entry (sid s) (deadline s) dr
   | _ => dr
   end.
 
-Lemma run_steps_woken now m k st r a dr nid lg mail :
-  aw_kind a -> Forall (fun s => handle s = Some (deadline s)) (aw_held a) -> aw_wake a = now ->
-  run_steps now m k (st :: r) (Some a) None dr nid lg mail =
-  run_steps now m k r None None (aw_done now a dr) nid (lg ++ aw_rec a) mail.
+(* ... except when sleep(x) wins against the kept timer and that is re-armed for a later
+   instant: the task stays blocked, now on the kept timer alone *)
+Definition aw_reblock (t : N) (a : aw) : option aw :=
+  match a with
+  | AwKeep true d3 s sx =>
+    if deadline s <=? t then None
+    else if t <? dl t d3 then Some (AwThen [t; 1] (reg (sid s) (dl t d3))) else None
+  | _ => None
+  end.
+
+Lemma run_steps_woken now m k st r a iv dr nid lg mail :
+  aw_kind a iv -> Forall (fun s => handle s = Some (deadline s)) (aw_held a iv) -> aw_wake a iv = now ->
+  aw_reblock now a = None ->
+  run_steps now m k (st :: r) (Some a) iv dr nid lg mail =
+  run_steps now m k r None (iv_after a iv) (aw_done now a dr) nid (lg ++ aw_rec a iv) mail.
 Proof.
-  intros Hk Hh Hw. destruct a as [s|v dl| | | | | | |]; try contradiction.
-  - cbn [aw_wake] in Hw. cbn [run_steps poll_aw poll_aw0 fst snd aw_done aw_rec]. unfold sleep_poll.
+  intros Hk Hh Hw Hrb. destruct a as [s|v dl|biased tie sa sb| | | | |rearm d3 s sx|pre s]; try contradiction.
+  - cbn [aw_wake] in Hw. cbn [run_steps poll_aw poll_aw0 fst snd aw_done aw_rec iv_after]. unfold sleep_poll.
     replace (now <? deadline s) with false by lia. rewrite Hw. reflexivity.
   - destruct v as [s| | |]; try contradiction. cbn [aw_wake] in Hw. cbn [aw_held held_sleeps] in Hh.
     inversion Hh as [|? ? Hs Hh']; subst. inversion Hh' as [|? ? Hd _]; subst.
-    cbn [run_steps poll_aw fst snd aw_done aw_rec]. unfold timeout_poll, vpoll_m. cbn [fst snd vpoll]. unfold sleep_poll.
+    cbn [run_steps poll_aw fst snd aw_done aw_rec iv_after]. unfold timeout_poll, vpoll_m. cbn [fst snd vpoll]. unfold sleep_poll.
     destruct (deadline s <=? N.min (deadline s) (deadline dl)) eqn:E.
     + replace (N.min (deadline s) (deadline dl) <? deadline s) with false by lia. cbn [fst snd vdrop].
       unfold sleep_drop. cbn [handle sid]. rewrite Hd.
@@ -167,6 +347,68 @@ Proof.
       replace (N.min (deadline s) (deadline dl) <? deadline dl) with false by lia. cbn [fst snd vdrop].
       unfold sleep_drop. cbn [handle sid]. rewrite Hs.
       replace (deadline s <=? deadline dl) with false by lia. reflexivity.
+  - (* select over two sleeps *)
+    destruct Hk as [_ ->]. cbn [aw_wake] in Hw. cbn [aw_held held_sleeps] in Hh.
+    inversion Hh as [|? ? Hsa Hh']; subst. inversion Hh' as [|? ? Hsb _]; subst.
+    cbn [run_steps poll_aw poll_aw0 fst snd aw_done aw_rec iv_after]. unfold sleep_poll, sel_code.
+    destruct (deadline sa <=? N.min (deadline sa) (deadline sb)) eqn:E.
+    + replace (N.min (deadline sa) (deadline sb) <? deadline sa) with false by lia. cbn [fst snd].
+      unfold sleep_drop. cbn [handle sid]. rewrite Hsb.
+      replace (deadline sa <=? deadline sb) with true by lia. reflexivity.
+    + replace (N.min (deadline sa) (deadline sb) <? deadline sa) with true by lia. rewrite Hsa. cbn [fst snd].
+      replace (N.min (deadline sa) (deadline sb) <? deadline sb) with false by lia. cbn [fst snd].
+      unfold sleep_drop. cbn [handle sid]. rewrite Hsa.
+      replace (deadline sa <=? deadline sb) with false by lia. replace (deadline sa =? deadline sb) with false by lia.
+      rewrite orb_true_r. reflexivity.
+  - (* the tick that was waited for: taken at exactly its instant, so it is not a missed one *)
+    destruct iv as [[[dd ii hh] pp bb]|]; [|contradiction Hk; reflexivity].
+    cbn [aw_wake iv_delay deadline] in Hw. subst dd.
+    cbn [run_steps poll_aw poll_aw0 fst snd aw_done aw_rec iv_after iv_delay iv_period deadline]. unfold poll_tick, sleep_poll.
+    cbn [iv_delay iv_period iv_beh deadline handle sid]. rewrite N.ltb_irrefl.
+    unfold sleep_reset, tick_next. cbn [deadline handle sid fst snd].
+    replace (now + GRACE <? now) with false by lia. reflexivity.
+  - (* the keep-alive select *)
+    destruct Hk as [_ Hd3]. cbn [aw_wake] in Hw. cbn [aw_held held_sleeps] in Hh.
+    inversion Hh as [|? ? Hs Hh']; subst. inversion Hh' as [|? ? Hx _]; subst.
+    cbn [run_steps poll_aw poll_aw0 fst snd aw_done aw_rec iv_after]. unfold sleep_poll.
+    destruct (deadline s <=? N.min (deadline s) (deadline sx)) eqn:E.
+    + replace (N.min (deadline s) (deadline sx) <? deadline s) with false by lia. cbn [fst snd].
+      unfold sleep_drop. cbn [handle sid]. rewrite Hx.
+      replace (deadline s <=? deadline sx) with true by lia.
+      replace (N.min (deadline s) (deadline sx)) with (deadline s) by lia. reflexivity.
+    + replace (N.min (deadline s) (deadline sx) <? deadline s) with true by lia. rewrite Hs. cbn [fst snd].
+      replace (N.min (deadline s) (deadline sx) <? deadline sx) with false by lia. cbn [fst snd].
+      replace (deadline s <=? deadline sx) with false by lia.
+      replace (N.min (deadline s) (deadline sx)) with (deadline sx) in * by lia.
+      destruct rearm.
+      * cbn [aw_reblock] in Hrb. rewrite E in Hrb. rewrite (dl_fin _ _ Hd3) in *.
+        destruct (deadline sx <? deadline sx + d3) eqn:E3; [discriminate|].
+        unfold sleep_reset, sleep_drop. cbn [deadline handle sid fst snd]. rewrite Hs. unfold sleep_poll. cbn [deadline handle sid].
+        rewrite E3. cbn [fst snd]. replace (deadline sx + d3) with (deadline sx) by lia. reflexivity.
+      * unfold sleep_drop. cbn [deadline handle sid fst snd]. rewrite Hs. rewrite N.add_0_r. reflexivity.
+  - (* the re-armed kept timer *)
+    cbn [aw_wake] in Hw. cbn [run_steps poll_aw poll_aw0 fst snd aw_done aw_rec iv_after]. unfold sleep_poll.
+    replace (now <? deadline s) with false by lia. rewrite Hw. reflexivity.
+Qed.
+
+Lemma run_steps_reblock now m k st r a a' iv dr nid lg mail :
+  aw_kind a iv -> Forall (fun s => handle s = Some (deadline s)) (aw_held a iv) -> aw_wake a iv = now ->
+  aw_reblock now a = Some a' ->
+  exists pre s', a' = AwThen pre s' /\
+  run_steps now m k (st :: r) (Some a) iv dr nid lg mail =
+  (st :: r, Some a', iv, register (sid s') (deadline s') (aw_done now a dr), nid, lg, false, mail).
+Proof.
+  intros Hk Hh Hw Hrb. destruct a as [s|v dl| | | | | |rearm d3 s sx|pre s]; try discriminate.
+  destruct rearm; [|discriminate]. cbn [aw_reblock] in Hrb.
+  destruct (deadline s <=? now) eqn:E; [discriminate|]. destruct (now <? dl now d3) eqn:E3; [|discriminate]. injection Hrb as <-.
+  exists [now; 1], (reg (sid s) (dl now d3)). split; [reflexivity|].
+  cbn [aw_wake] in Hw. cbn [aw_held held_sleeps] in Hh.
+  inversion Hh as [|? ? Hs Hh']; subst. inversion Hh' as [|? ? Hx _]; subst.
+  cbn [run_steps poll_aw poll_aw0 fst snd aw_done]. unfold sleep_poll.
+  replace (N.min (deadline s) (deadline sx) <? deadline s) with true by lia. rewrite Hs. cbn [fst snd].
+  replace (N.min (deadline s) (deadline sx) <? deadline sx) with false by lia. cbn [fst snd].
+  unfold sleep_reset, sleep_drop. cbn [deadline handle sid fst snd]. rewrite Hs. unfold sleep_poll. cbn [deadline handle sid].
+  rewrite E3, E. cbn [fst snd reg deadline sid]. reflexivity.
 Qed.
 
 (* the preparations of a step leave the entries of the driver as they were *)
@@ -174,51 +416,102 @@ Lemma prep_drv_spec now nid st dr : frag_step st -> Mid now dr -> fresh_in nid (
   acts now dr (prep_drv now nid st dr) /\ forall x, ents_at x (pending (prep_drv now nid st dr)) = ents_at x (pending dr).
 Proof.
   intros Hst Hm Hf. pose proof (mid_sorted _ _ Hm) as Hs.
-  destruct st as [d|t|d v| | | | |polled d1 d2|d| | | | | |]; try contradiction; cbn [prep_drv]; try (split; [apply acts_refl|reflexivity]).
+  destruct st as [d|t|d v|biased a b| | | |polled d1 d2|d| | | | | |rearm d0 d2 x d3]; try contradiction; cbn [prep_drv]; try (split; [apply acts_refl|reflexivity]).
   - destruct v as [x|]; [|contradiction].
     destruct ((now <? now + x) && negb (now <? dl now d)) eqn:E; [|split; [apply acts_refl|reflexivity]].
     split.
     + eapply acts_trans; [apply (acts_one now dr (Register nid (now + x))); cbn [op_wf]; lia|].
       apply (acts_one now _ (DropEntry nid (now + x))). exact I.
     + intros y. apply drop_registered_ents; assumption.
+  - destruct ((now <? dl now a) && negb (now <? dl now b)) eqn:E; [|split; [apply acts_refl|reflexivity]].
+    split.
+    + eapply acts_trans; [apply (acts_one now dr (Register nid (dl now a))); cbn [op_wf]; lia|].
+      apply (acts_one now _ (DropEntry nid (dl now a))). exact I.
+    + intros y. apply drop_registered_ents; assumption.
   - destruct (reset_prep_spec now polled (dl now d1) (dl now d2) nid dr Hs Hf) as (_ & H2 & H3). split; assumption.
   - split; [apply poll_drop_acts|]. intros x. apply poll_drop_ents; assumption.
+  - destruct (reset_prep_spec now true (dl now d0) (dl now d2) nid dr Hs Hf) as (_ & H2 & H3).
+    set (dr2 := snd (reset_prep now true (dl now d0) (dl now d2) nid dr)) in *.
+    assert (Hs2 : sorted (pending dr2)) by exact (mid_sorted _ _ (acts_mid _ _ _ H2 Hm)).
+    assert (Hf2 : fresh_in nid (pending dr2)) by (intros y; rewrite H3; apply Hf).
+    destruct ((now <? dl now d2) && negb (now <? now + x)) eqn:E; [|split; assumption].
+    destruct rearm.
+    + split.
+      * eapply acts_trans; [exact H2|]. eapply acts_trans; [apply (acts_one now dr2 (Register nid (dl now d2))); cbn [op_wf]; lia|].
+        apply (acts_one now _ (ResetEntry nid (dl now d2) (dl now d3))). exact I.
+      * intros y. rewrite (reset_registered_ents _ _ _ _ _ Hs2 Hf2). apply H3.
+    + split.
+      * eapply acts_trans; [exact H2|]. eapply acts_trans; [apply (acts_one now dr2 (Register nid (dl now d2))); cbn [op_wf]; lia|].
+        apply (acts_one now _ (DropEntry nid (dl now d2))). exact I.
+      * intros y. rewrite (drop_registered_ents _ _ _ _ Hs2 Hf2). apply H3.
 Qed.
 
-(* what one poll emits, where it leaves the task against the demanded log, and what it does
-   to the driver: contract-respecting operations whose net effect on the entries is the
-   registration of the Sleeps the task blocks on *)
-Definition blocked_ok (now nid n : N) (a : aw) : Prop :=
-  aw_kind a /\ now < aw_wake a /\ NoDup (map sid (aw_held a)) /\
-  Forall (fun s => now < deadline s /\ handle s = Some (deadline s) /\ nid <= sid s /\ sid s < n) (aw_held a).
+(* where the id of a Sleep the task holds after a poll comes from: created in this poll, or one
+   the task owned before ([old]) *)
+Definition idsrc (nid n : N) (old : N -> Prop) (id : N) : Prop := (nid <= id /\ id < n) \/ old id.
 
-Lemma frag_run_spec now steps : Forall frag_step steps -> forall nid dr,
-  Mid now dr -> (forall x id, In id (ents_at x (pending dr)) -> id < nid) ->
-  let '(o, b, n, d') := frag_run now nid steps dr in
+Definition iv_ids (iv : option interval) (id : N) : Prop := exists i, iv = Some i /\ id = sid (iv_delay i).
+
+Definition blocked_ok (now nid n : N) (old : N -> Prop) (a : aw) (iv' : option interval) : Prop :=
+  aw_kind a iv' /\ now < aw_wake a iv' /\ NoDup (map sid (aw_held a iv')) /\
+  Forall (fun s => now < deadline s /\ handle s = Some (deadline s) /\ idsrc nid n old (sid s)) (aw_held a iv') /\
+  (forall id, iv_ids iv' id -> idsrc nid n old id).
+
+(* what one poll emits against the log [E] still demanded, where it leaves the task, and what
+   it does to the driver: contract-respecting operations whose net effect on the entries is the
+   registration of the Sleeps the task blocks on *)
+Definition poll_ok (now nid : N) (old : N -> Prop) (dr : driver) (E : list N)
+                   (res : list N * option (aw * option interval * list step) * N * driver) : Prop :=
+  let '(o, b, n, d') := res in
   nid <= n /\ acts now dr d' /\
   (forall x, ents_at x (pending d') =
-             ents_at x (pending dr) ++ match b with Some (a, _) => new_at a x | None => [] end) /\
+             ents_at x (pending dr) ++ match b with Some (a, iv', _) => new_at a iv' x | None => [] end) /\
   match b with
-  | None => exp_run now steps = o
-  | Some (a, l) =>
+  | None => E = o
+  | Some (a, iv', l) =>
     exists st rest, l = st :: rest /\ Forall frag_step rest /\
-      exp_run now steps = o ++ aw_rec a ++ exp_run (aw_wake a) rest /\ blocked_ok now nid n a
+      E = o ++ aw_rec a iv' ++ exp_run (aw_end a iv') (iv_abs (iv_after a iv')) rest /\ blocked_ok now nid n old a iv'
   end.
+
+Lemma poll_ok_pass now nid nid' (old old' : N -> Prop) dr dr' E pre res :
+  nid <= nid' -> (forall id, old' id -> idsrc nid nid' old id) -> acts now dr dr' ->
+  (forall x, ents_at x (pending dr') = ents_at x (pending dr)) ->
+  poll_ok now nid' old' dr' E res ->
+  poll_ok now nid old dr (pre ++ E) (let '(o, b, n, d') := res in (pre ++ o, b, n, d')).
 Proof.
-  induction 1 as [|st r Hst Hr IH]; intros nid dr Hm Hfr.
-  { cbn [frag_run exp_run]. split; [lia|]. split; [apply acts_refl|]. split; [intros x; rewrite app_nil_r; reflexivity|reflexivity]. }
+  intros Hn Hold Ha He. destruct res as [[[o b] n] d']. unfold poll_ok. intros (I1 & I2 & I3 & I4).
+  assert (Hsrc : forall id, idsrc nid' n old' id -> idsrc nid n old id).
+  { intros id [[H1 H2]|H]; [left; lia|]. destruct (Hold id H) as [[H1 H2]|H']; [left; lia|right; exact H']. }
+  split; [lia|]. split; [exact (acts_trans _ _ _ _ Ha I2)|].
+  split; [intros x; rewrite I3, He; reflexivity|].
+  destruct b as [[[a iv'] l]|].
+  - destruct I4 as (st' & rest & -> & Hf' & He' & Hk & Hw & Hnd & Hall & Hiv). exists st', rest.
+    split; [reflexivity|]. split; [exact Hf'|]. split; [rewrite He', app_assoc; reflexivity|].
+    split; [exact Hk|]. split; [exact Hw|]. split; [exact Hnd|]. split.
+    + eapply Forall_impl; [|exact Hall]. cbn beta. intros s0 (H1 & H2 & H3). repeat split; try assumption. exact (Hsrc _ H3).
+    + intros id Hid. exact (Hsrc _ (Hiv id Hid)).
+  - rewrite I4. reflexivity.
+Qed.
+
+Lemma tick_next_on_time b nx p : tick_next b nx nx p = nx + p.
+Proof. unfold tick_next. replace (nx + GRACE <? nx) with false by lia. reflexivity. Qed.
+
+Lemma frag_run_spec now steps : Forall frag_step steps -> forall nid iv dr,
+  iv_idle iv -> Mid now dr -> (forall x id, In id (ents_at x (pending dr)) -> id < nid) ->
+  poll_ok now nid (iv_ids iv) dr (exp_run now (iv_abs iv) steps) (frag_run now nid iv steps dr).
+Proof.
+  induction 1 as [|st r Hst Hr IH]; intros nid iv dr Hi Hm Hfr.
+  { cbn [frag_run exp_run poll_ok]. split; [lia|]. split; [apply acts_refl|]. split; [intros x; rewrite app_nil_r; reflexivity|reflexivity]. }
   assert (Hf : fresh_in nid (pending dr)) by (intros x Hin; specialize (Hfr x nid Hin); lia).
   destruct (prep_drv_spec now nid st dr Hst Hm Hf) as [Hpa Hpe].
   assert (Hm1 : Mid now (prep_drv now nid st dr)) by exact (acts_mid _ _ _ Hpa Hm).
+  assert (Hsame : forall id, iv_ids iv id -> forall nid', idsrc nid nid' (iv_ids iv) id) by (intros id H nid'; right; exact H).
   (* a step that blocks on one Sleep *)
   assert (Hblock : forall D, dl_of now st = D -> now < D ->
-    (exp_run now (st :: r) = D :: exp_run D r) ->
-    let a := AwSleep (reg nid D) in
-    nid <= nid + 1 /\ acts now dr (register nid D (prep_drv now nid st dr)) /\
-    (forall x, ents_at x (pending (register nid D (prep_drv now nid st dr))) = ents_at x (pending dr) ++ new_at a x) /\
-    exists st' rest, st :: r = st' :: rest /\ Forall frag_step rest /\
-      exp_run now (st :: r) = [] ++ aw_rec a ++ exp_run (aw_wake a) rest /\ blocked_ok now nid (nid + 1) a).
-  { intros D HD Hlt Hexp. cbn zeta. split; [lia|]. split.
+    (exp_run now (iv_abs iv) (st :: r) = D :: exp_run D (iv_abs iv) r) ->
+    poll_ok now nid (iv_ids iv) dr (exp_run now (iv_abs iv) (st :: r))
+      ([], Some (AwSleep (reg nid D), iv, st :: r), nid + 1, register nid D (prep_drv now nid st dr))).
+  { intros D HD Hlt Hexp. unfold poll_ok. split; [lia|]. split.
     - eapply acts_trans; [exact Hpa|]. apply (acts_one now _ (Register nid D)). exact Hlt.
     - split.
       + intros x. cbn [register set_pending pending]. rewrite (ents_at_add _ _ _ _ (mid_sorted _ _ Hm1)), !Hpe.
@@ -226,53 +519,39 @@ Proof.
         destruct (x =? D) eqn:E.
         * replace x with D by lia. rewrite N.eqb_refl. reflexivity.
         * replace (D =? x) with false by lia. rewrite app_nil_r. reflexivity.
-      + exists st, r. cbn [aw_rec aw_wake reg deadline app]. split; [reflexivity|]. split; [exact Hr|]. split; [exact Hexp|].
+      + exists st, r. cbn [aw_rec aw_end aw_wake reg deadline app iv_after]. split; [reflexivity|]. split; [exact Hr|]. split; [exact Hexp|].
         unfold blocked_ok. cbn [aw_kind aw_wake aw_held held_sleeps reg deadline sid handle map].
-        split; [exact I|]. split; [exact Hlt|]. split; [repeat constructor; intros []|].
-        constructor; [|constructor]. unfold reg. cbn [deadline handle sid]. repeat split; try reflexivity; lia. }
-  (* a step that completes at once *)
+        split; [exact Hi|]. split; [exact Hlt|]. split; [repeat constructor; intros []|]. split.
+        * constructor; [|constructor]. unfold reg. cbn [deadline handle sid]. repeat split; try reflexivity; try lia. left; lia.
+        * intros id Hid. right; exact Hid. }
+  (* a step that completes at once, leaving the interval as it is *)
   assert (Hpass : forall nid' dr' (pre : list N), nid <= nid' -> acts now dr dr' -> Mid now dr' ->
      (forall x, ents_at x (pending dr') = ents_at x (pending dr)) ->
-     (exp_run now (st :: r) = pre ++ exp_run now r) ->
-     let '(o, b, n, d') := frag_run now nid' r dr' in
-     nid <= n /\ acts now dr d' /\
-     (forall x, ents_at x (pending d') =
-                ents_at x (pending dr) ++ match b with Some (a, _) => new_at a x | None => [] end) /\
-     match b with
-     | None => exp_run now (st :: r) = pre ++ o
-     | Some (a, l) =>
-       exists st' rest, l = st' :: rest /\ Forall frag_step rest /\
-         exp_run now (st :: r) = (pre ++ o) ++ aw_rec a ++ exp_run (aw_wake a) rest /\ blocked_ok now nid n a
-     end).
-  { intros nid' dr' pre Hn Ha Hm' He Hexp.
-    assert (Hfr' : forall x id, In id (ents_at x (pending dr')) -> id < nid') by (intros x id Hin; rewrite He in Hin; specialize (Hfr x id Hin); lia).
-    specialize (IH nid' dr' Hm' Hfr'). destruct (frag_run now nid' r dr') as [[[o b] n] d'].
-    destruct IH as (I1 & I2 & I3 & I4). split; [lia|]. split; [exact (acts_trans _ _ _ _ Ha I2)|].
-    split; [intros x; rewrite I3, He; reflexivity|].
-    destruct b as [[a l]|].
-    - destruct I4 as (st' & rest & -> & Hf' & He' & Hk & Hw & Hnd & Hall). exists st', rest.
-      rewrite Hexp, He', <- app_assoc. split; [reflexivity|]. split; [exact Hf'|]. split; [reflexivity|].
-      split; [exact Hk|]. split; [exact Hw|]. split; [exact Hnd|].
-      eapply Forall_impl; [|exact Hall]. cbn beta. intros s0 (H1 & H2 & H3 & H4). repeat split; try assumption; lia.
-    - rewrite Hexp, I4. reflexivity. }
-  destruct st as [d|t|d v| | | | |polled d1 d2|d| | | | | |]; try contradiction; cbn [frag_run].
+     (exp_run now (iv_abs iv) (st :: r) = pre ++ exp_run now (iv_abs iv) r) ->
+     poll_ok now nid (iv_ids iv) dr (exp_run now (iv_abs iv) (st :: r))
+       (let '(o, b, n, d') := frag_run now nid' iv r dr' in (pre ++ o, b, n, d'))).
+  { intros nid' dr' pre Hn Ha Hm' He Hexp. rewrite Hexp.
+    apply (poll_ok_pass now nid nid' (iv_ids iv) (iv_ids iv) dr dr'); try assumption.
+    - intros id H. right; exact H.
+    - apply IH; [exact Hi|exact Hm'|]. intros x id Hin. rewrite He in Hin. specialize (Hfr x id Hin). lia. }
+  destruct st as [d|t|d v|biased a b|p bh| | |polled d1 d2|d| | | | | |rearm d0 d2 x d3]; try contradiction; cbn [frag_run].
   - (* sleep *)
     cbn [dl_of]. destruct (now <? now + d) eqn:E.
     + apply (Hblock (now + d)); [reflexivity|lia|reflexivity].
     + pose proof (Hpass (nid + 1) (prep_drv now nid (SSleep d) dr) [now] ltac:(lia) Hpa Hm1 Hpe) as H.
-      cbn [prep_drv] in *. destruct (frag_run now (nid + 1) r dr) as [[[o b] n] d'].
+      cbn [prep_drv app] in *. destruct (frag_run now (nid + 1) iv r dr) as [[[o b] n] d'].
       apply H. cbn [exp_run app]. replace (now + d) with now by lia. reflexivity.
   - (* sleep_until *)
     cbn [dl_of]. destruct (now <? t) eqn:E.
     + apply (Hblock t); [reflexivity|lia|]. cbn [exp_run]. replace (N.max now t) with t by lia. reflexivity.
     + pose proof (Hpass (nid + 1) (prep_drv now nid (SSleepUntil t) dr) [now] ltac:(lia) Hpa Hm1 Hpe) as H.
-      cbn [prep_drv] in *. destruct (frag_run now (nid + 1) r dr) as [[[o b] n] d'].
+      cbn [prep_drv app] in *. destruct (frag_run now (nid + 1) iv r dr) as [[[o b] n] d'].
       apply H. cbn [exp_run app]. replace (N.max now t) with now by lia. reflexivity.
   - (* timeout around a sleep *)
     destruct v as [x|]; [|contradiction]. destruct Hst as [Hd Hx]. rewrite (dl_fin now d Hd) in *.
     destruct ((now <? now + x) && (now <? now + d)) eqn:E.
     + (* both pending: the value Sleep and the delay are registered *)
-      split; [lia|]. split.
+      unfold poll_ok. split; [lia|]. split.
       * eapply acts_trans; [apply (acts_one now dr (Register nid (now + x))); cbn [op_wf]; lia|].
         apply (acts_one now _ (Register (nid + 1) (now + d))). cbn [op_wf]. lia.
       * split.
@@ -286,31 +565,238 @@ Proof.
            ++ replace y with (now + x) by lia. rewrite N.eqb_refl. replace (now + d =? now + x) with false by lia. cbn [map reg sid]. reflexivity.
            ++ replace (now + x =? y) with false by lia. replace (now + d =? y) with false by lia. cbn [map]. rewrite app_nil_r. reflexivity.
         -- exists (STimeout d (ISleep x)), r. split; [reflexivity|]. split; [exact Hr|].
-           cbn [aw_rec aw_wake reg deadline exp_run app]. split.
+           cbn [aw_rec aw_end aw_wake reg deadline exp_run app iv_after]. split.
            ++ rewrite N.add_min_distr_l. replace (now + x <=? now + d) with (x <=? d) by lia. reflexivity.
            ++ unfold blocked_ok. cbn [aw_kind aw_wake aw_held held_sleeps reg deadline sid handle map].
-              split; [exact I|]. split; [lia|]. split; [repeat constructor; [intros [H|[]]; lia|intros []]|].
-              constructor; [|constructor; [|constructor]]; unfold reg; cbn [deadline handle sid]; repeat split; try reflexivity; lia.
+              split; [exact Hi|]. split; [lia|]. split; [repeat constructor; [intros [H|[]]; lia|intros []]|]. split.
+              ** constructor; [|constructor; [|constructor]]; unfold reg; cbn [deadline handle sid]; (split; [lia|split; [reflexivity|left; lia]]).
+              ** intros id Hid. right; exact Hid.
     + (* one of them is due at once *)
       pose proof (Hpass (nid + 2) (prep_drv now nid (STimeout d (ISleep x)) dr) [now; b2n (negb (now <? now + x))] ltac:(lia) Hpa Hm1 Hpe) as H.
-      cbn [prep_drv] in *. rewrite (dl_fin now d Hd) in *.
-      destruct (frag_run now (nid + 2) r _) as [[[o b] n] d'].
+      cbn [prep_drv app] in *. rewrite (dl_fin now d Hd) in *.
+      destruct (frag_run now (nid + 2) iv r _) as [[[o b] n] d'].
       apply H. cbn [exp_run app].
       destruct (now <? now + x) eqn:E1; cbn [andb negb] in *.
       * (* the value is pending, so the delay is due: d = 0 *)
         replace (N.min x d) with 0 by lia. replace (x <=? d) with false by lia. rewrite N.add_0_r. reflexivity.
       * replace (N.min x d) with 0 by lia. replace (x <=? d) with true by lia. rewrite N.add_0_r. reflexivity.
+  - (* select over two sleeps *)
+    destruct Hst as [Ha Hb]. rewrite (dl_fin now a Ha), (dl_fin now b Hb).
+    destruct ((now <? now + a) && (now <? now + b)) eqn:E.
+    + (* both pending: both Sleeps are registered *)
+      unfold poll_ok. split; [lia|]. split.
+      * eapply acts_trans; [apply (acts_one now dr (Register nid (now + a))); cbn [op_wf]; lia|].
+        apply (acts_one now _ (Register (nid + 1) (now + b))). cbn [op_wf]. lia.
+      * split.
+        -- intros y. cbn [register set_pending pending].
+           rewrite (ents_at_add _ _ _ _ (q_add_sorted _ _ _ (mid_sorted _ _ Hm))), !(ents_at_add _ _ _ _ (mid_sorted _ _ Hm)).
+           unfold new_at. cbn [aw_held held_sleeps filter reg deadline sid map].
+           destruct (y =? now + b) eqn:E1, (y =? now + a) eqn:E2.
+           ++ replace y with (now + b) by lia. replace (now + a) with (now + b) by lia. rewrite !N.eqb_refl. cbn [map]. rewrite <- app_assoc. reflexivity.
+           ++ replace y with (now + b) by lia. rewrite N.eqb_refl. replace (now + b =? now + a) with false by lia.
+              replace (now + a =? now + b) with false by lia. cbn [map]. reflexivity.
+           ++ replace y with (now + a) by lia. rewrite N.eqb_refl. replace (now + b =? now + a) with false by lia. cbn [map reg sid]. reflexivity.
+           ++ replace (now + a =? y) with false by lia. replace (now + b =? y) with false by lia. cbn [map]. rewrite app_nil_r. reflexivity.
+        -- exists (SSelect biased a b), r. split; [reflexivity|]. split; [exact Hr|].
+           cbn [aw_rec aw_end aw_wake reg deadline exp_run app iv_after]. split.
+           ++ rewrite N.add_min_distr_l. unfold sel_code. replace (now + a <=? now + b) with (a <=? b) by lia.
+              replace (now + a =? now + b) with (a =? b) by lia. reflexivity.
+           ++ unfold blocked_ok. cbn [aw_kind aw_wake aw_held held_sleeps reg deadline sid handle map].
+              split; [split; [exact Hi|lia]|]. split; [lia|]. split; [repeat constructor; [intros [H|[]]; lia|intros []]|]. split.
+              ** constructor; [|constructor; [|constructor]]; unfold reg; cbn [deadline handle sid]; (split; [lia|split; [reflexivity|left; lia]]).
+              ** intros id Hid. right; exact Hid.
+    + (* one of them is due at once *)
+      pose proof (Hpass (nid + 2) (prep_drv now nid (SSelect biased a b) dr)
+                    [now; if now <? now + a then 1 else if biased || negb (a =? b) then 0 else 2] ltac:(lia) Hpa Hm1 Hpe) as H.
+      destruct (frag_run now (nid + 2) iv r _) as [[[o b'] n] d']. cbn [app] in H.
+      apply H. cbn [exp_run app]. unfold sel_code.
+      destruct (now <? now + a) eqn:E1; cbn [andb] in E.
+      * replace (N.min a b) with 0 by lia. replace (a <=? b) with false by lia. rewrite N.add_0_r. reflexivity.
+      * replace (N.min a b) with 0 by lia. replace (a <=? b) with true by lia. rewrite N.add_0_r. reflexivity.
+  - (* a new interval *)
+    assert (HI : poll_ok now (nid + 1) (iv_ids (Some (interval_new now p bh nid))) dr
+                   (exp_run now (iv_abs (Some (interval_new now p bh nid))) r) (frag_run now (nid + 1) (Some (interval_new now p bh nid)) r dr)).
+    { apply IH; [reflexivity|exact Hm|]. intros x id Hin. specialize (Hfr x id Hin). lia. }
+    assert (Hold : forall id, iv_ids (Some (interval_new now p bh nid)) id -> idsrc nid (nid + 1) (iv_ids iv) id).
+    { intros id (i & E & ->). injection E as <-. left. cbn [interval_new iv_delay sleep_new sid]. lia. }
+    pose proof (poll_ok_pass now nid (nid + 1) (iv_ids iv) _ dr dr _ [] _ ltac:(lia) Hold (acts_refl now dr) (fun x => eq_refl) HI) as H.
+    destruct (frag_run now (nid + 1) (Some (interval_new now p bh nid)) r dr) as [[[o b] n] d']. exact H.
+  - (* tick *)
+    destruct iv as [i|].
+    + cbn [iv_idle] in Hi. destruct (now <? deadline (iv_delay i)) eqn:E.
+      * (* not yet due: the Sleep of the interval is registered *)
+        assert (Hmax : N.max now (deadline (iv_delay i)) = deadline (iv_delay i)) by lia.
+        unfold poll_ok. split; [lia|]. split; [apply (acts_one now dr (Register (sid (iv_delay i)) (deadline (iv_delay i)))); cbn [op_wf]; lia|].
+        split.
+        -- intros x. cbn [register set_pending pending]. rewrite (ents_at_add _ _ _ _ (mid_sorted _ _ Hm)).
+           unfold new_at. cbn [aw_held held_sleeps iv_reg iv_delay filter reg deadline sid map].
+           destruct (x =? deadline (iv_delay i)) eqn:E1.
+           ++ replace x with (deadline (iv_delay i)) by lia. rewrite N.eqb_refl. reflexivity.
+           ++ replace (deadline (iv_delay i) =? x) with false by lia. rewrite app_nil_r. reflexivity.
+        -- exists SIvTick, r. split; [reflexivity|]. split; [exact Hr|].
+           cbn [aw_rec aw_end aw_wake iv_after iv_reg iv_delay iv_period iv_beh reg deadline sid exp_run app iv_abs iv_next]. split.
+           ++ rewrite Hmax, tick_next_on_time. reflexivity.
+           ++ unfold blocked_ok. cbn [aw_kind aw_wake aw_held held_sleeps iv_reg iv_delay reg deadline sid handle map].
+              split; [discriminate|]. split; [lia|]. split; [repeat constructor; intros []|]. split.
+              ** constructor; [|constructor]. unfold reg; cbn [deadline handle sid]. split; [lia|]. split; [reflexivity|]. right. exists i. split; reflexivity.
+              ** intros id (i' & E' & ->). injection E' as <-. right. exists i. split; reflexivity.
+      * (* due (or missed): the tick is taken at once *)
+        set (iv1 := Some (iv_next i (tick_next (iv_beh i) (deadline (iv_delay i)) now (iv_period i)))).
+        assert (HI : poll_ok now nid (iv_ids iv1) dr (exp_run now (iv_abs iv1) r) (frag_run now nid iv1 r dr)) by (apply IH; [reflexivity|exact Hm|exact Hfr]).
+        assert (Hold : forall id, iv_ids iv1 id -> idsrc nid nid (iv_ids (Some i)) id).
+        { intros id (i' & E' & ->). unfold iv1 in E'. injection E' as <-. right. exists i. split; reflexivity. }
+        pose proof (poll_ok_pass now nid nid (iv_ids (Some i)) _ dr dr _ [now; deadline (iv_delay i)] _ ltac:(lia) Hold (acts_refl now dr) (fun x => eq_refl) HI) as H.
+        replace (exp_run now (iv_abs (Some i)) (SIvTick :: r)) with ([now; deadline (iv_delay i)] ++ exp_run now (iv_abs iv1) r).
+        -- fold iv1. destruct (frag_run now nid iv1 r dr) as [[[o b] n] d']. exact H.
+        -- cbn [exp_run iv_abs app]. replace (N.max now (deadline (iv_delay i))) with now by lia. reflexivity.
+    + assert (HI : poll_ok now nid (iv_ids None) dr (exp_run now None r) (frag_run now nid None r dr)) by (apply (IH nid None dr I Hm Hfr)).
+      pose proof (poll_ok_pass now nid nid (iv_ids None) _ dr dr _ [now; 0] _ ltac:(lia) (fun id H => or_intror H) (acts_refl now dr) (fun x => eq_refl) HI) as H.
+      destruct (frag_run now nid None r dr) as [[[o b] n] d']. exact H.
+  - (* the interval is dropped *)
+    assert (HI : poll_ok now nid (iv_ids None) dr (exp_run now None r) (frag_run now nid None r dr)) by (apply (IH nid None dr I Hm Hfr)).
+    assert (Hold : forall id, iv_ids None id -> idsrc nid nid (iv_ids iv) id) by (intros id (i & E & _); discriminate).
+    pose proof (poll_ok_pass now nid nid (iv_ids iv) _ dr dr _ [] _ ltac:(lia) Hold (acts_refl now dr) (fun x => eq_refl) HI) as H.
+    destruct (frag_run now nid None r dr) as [[[o b] n] d']. exact H.
   - (* reset *)
     destruct Hst as [Hd1 Hd2]. cbn [dl_of]. rewrite (dl_fin now d2 Hd2) in *. destruct (now <? now + d2) eqn:E.
     + apply (Hblock (now + d2)); [cbn [dl_of]; apply dl_fin; exact Hd2|lia|reflexivity].
     + pose proof (Hpass (nid + 1) (prep_drv now nid (SReset polled d1 d2) dr) [now] ltac:(lia) Hpa Hm1 Hpe) as H.
-      destruct (frag_run now (nid + 1) r (prep_drv now nid (SReset polled d1 d2) dr)) as [[[o b] n] d'].
+      destruct (frag_run now (nid + 1) iv r (prep_drv now nid (SReset polled d1 d2) dr)) as [[[o b] n] d']. cbn [app] in H.
       apply H. cbn [exp_run app]. replace (now + d2) with now by lia. reflexivity.
   - (* drop *)
     pose proof (Hpass (nid + 1) (prep_drv now nid (SDropSleep d) dr) [now] ltac:(lia) Hpa Hm1 Hpe) as H.
-    destruct (frag_run now (nid + 1) r (prep_drv now nid (SDropSleep d) dr)) as [[[o b] n] d'].
+    destruct (frag_run now (nid + 1) iv r (prep_drv now nid (SDropSleep d) dr)) as [[[o b] n] d']. cbn [app] in H.
     apply H. reflexivity.
   - (* log *)
     pose proof (Hpass nid dr [now] ltac:(lia) (acts_refl now dr) Hm (fun x => eq_refl)) as H.
-    destruct (frag_run now nid r dr) as [[[o b] n] d']. apply H. reflexivity.
+    destruct (frag_run now nid iv r dr) as [[[o b] n] d']. cbn [app] in H. apply H. reflexivity.
+  - (* keep-alive select *)
+    destruct Hst as (Hd2 & Hx & Hd3). rewrite (dl_fin now d2 Hd2), (dl_fin now d3 Hd3).
+    set (drp := prep_drv now nid (SKeep rearm d0 d2 x d3) dr) in *.
+    pose proof (mid_sorted _ _ Hm1) as Hsp.
+    destruct (now <? now + d2) eqn:E2.
+    + destruct (now <? now + x) eqn:Ex.
+      * (* both pending: the kept timer and sleep(x) are registered *)
+        unfold poll_ok. split; [lia|]. split.
+        -- eapply acts_trans; [exact Hpa|].
+           eapply acts_trans; [apply (acts_one now drp (Register nid (now + d2))); cbn [op_wf]; lia|].
+           apply (acts_one now _ (Register (nid + 1) (now + x))). cbn [op_wf]. lia.
+        -- split.
+           ++ intros y. cbn [register set_pending pending].
+              rewrite (ents_at_add _ _ _ _ (q_add_sorted _ _ _ Hsp)), !(ents_at_add _ _ _ _ Hsp), !Hpe.
+              unfold new_at. cbn [aw_held held_sleeps filter reg deadline sid map].
+              destruct (y =? now + x) eqn:E1, (y =? now + d2) eqn:E3.
+              ** replace y with (now + x) by lia. replace (now + d2) with (now + x) by lia. rewrite !N.eqb_refl. cbn [map]. rewrite <- app_assoc. reflexivity.
+              ** replace y with (now + x) by lia. rewrite N.eqb_refl. replace (now + x =? now + d2) with false by lia.
+                 replace (now + d2 =? now + x) with false by lia. cbn [map]. reflexivity.
+              ** replace y with (now + d2) by lia. rewrite N.eqb_refl. replace (now + x =? now + d2) with false by lia. cbn [map reg sid]. reflexivity.
+              ** replace (now + d2 =? y) with false by lia. replace (now + x =? y) with false by lia. cbn [map]. rewrite app_nil_r. reflexivity.
+           ++ exists (SKeep rearm d0 d2 x d3), r. split; [reflexivity|]. split; [exact Hr|].
+              cbn [aw_rec aw_end aw_wake reg deadline exp_run app iv_after]. split.
+              ** replace (now + d2 <=? now + x) with (d2 <=? x) by lia. destruct (d2 <=? x); reflexivity.
+              ** unfold blocked_ok. cbn [aw_kind aw_wake aw_held held_sleeps reg deadline sid handle map].
+                 split; [split; [exact Hi|exact Hd3]|]. split; [lia|]. split; [repeat constructor; [intros [H|[]]; lia|intros []]|]. split.
+                 --- constructor; [|constructor; [|constructor]]; unfold reg; cbn [deadline handle sid]; (split; [lia|split; [reflexivity|left; lia]]).
+                 --- intros id Hid. right; exact Hid.
+      * (* sleep(x) is due at once, the kept timer is not *)
+        assert (Hx0 : x = 0) by lia. subst x.
+        assert (Hexp : forall e, e = now + 0 + (if rearm then d3 else 0) ->
+                  exp_run now (iv_abs iv) (SKeep rearm d0 d2 0 d3 :: r) = [now; 1; e] ++ exp_run e (iv_abs iv) r).
+        { intros e ->. cbn [exp_run app]. replace (d2 <=? 0) with false by lia. rewrite N.add_0_r. reflexivity. }
+        destruct rearm; cbn [andb].
+        -- destruct (now <? now + d3) eqn:E3.
+           ++ (* re-armed for a later instant: blocked on the kept timer alone *)
+              unfold poll_ok. split; [lia|]. split.
+              ** eapply acts_trans; [exact Hpa|]. apply (acts_one now drp (Register nid (now + d3))). cbn [op_wf]. lia.
+              ** split.
+                 --- intros y. cbn [register set_pending pending]. rewrite (ents_at_add _ _ _ _ Hsp), !Hpe.
+                     unfold new_at. cbn [aw_held held_sleeps filter reg deadline sid map].
+                     destruct (y =? now + d3) eqn:E1.
+                     +++ replace y with (now + d3) by lia. rewrite N.eqb_refl. reflexivity.
+                     +++ replace (now + d3 =? y) with false by lia. rewrite app_nil_r. reflexivity.
+                 --- exists (SKeep true d0 d2 0 d3), r. split; [reflexivity|]. split; [exact Hr|].
+                     cbn [aw_rec aw_end aw_wake reg deadline app iv_after]. split.
+                     +++ rewrite (Hexp (now + d3)) by lia. reflexivity.
+                     +++ unfold blocked_ok. cbn [aw_kind aw_wake aw_held held_sleeps reg deadline sid handle map].
+                         split; [exact Hi|]. split; [lia|]. split; [repeat constructor; intros []|]. split.
+                         *** constructor; [|constructor]. unfold reg; cbn [deadline handle sid]. split; [lia|]. split; [reflexivity|left; lia].
+                         *** intros id Hid. right; exact Hid.
+           ++ pose proof (Hpass (nid + 2) drp [now; 1; now] ltac:(lia) Hpa Hm1 Hpe) as H.
+              destruct (frag_run now (nid + 2) iv r drp) as [[[o b] n] d']. cbn [app] in H. apply H.
+              rewrite (Hexp now) by lia. reflexivity.
+        -- pose proof (Hpass (nid + 2) drp [now; 1; now] ltac:(lia) Hpa Hm1 Hpe) as H.
+           destruct (frag_run now (nid + 2) iv r drp) as [[[o b] n] d']. cbn [app] in H. apply H.
+           rewrite (Hexp now) by lia. reflexivity.
+    + (* the kept timer is due at once *)
+      pose proof (Hpass (nid + 2) drp [now; 0] ltac:(lia) Hpa Hm1 Hpe) as H.
+      destruct (frag_run now (nid + 2) iv r drp) as [[[o b] n] d']. cbn [app] in H. apply H.
+      cbn [exp_run app]. replace (d2 <=? x) with true by lia. replace (now + d2) with now by lia. reflexivity.
+Qed.
+
+(* ---- closed forms for the interval ---- *)
+(* a tick taken no later than 5 ms after its nominal instant, whatever the behaviour, and any tick
+   under Burst: the next tick is due one period after the nominal instant *)
+Lemma tick_next_nominal b nx t p : t <= nx + GRACE -> tick_next b nx t p = nx + p.
+Proof. intros H. unfold tick_next. replace (nx + GRACE <? t) with false by lia. reflexivity. Qed.
+
+Lemma tick_next_burst nx t p : tick_next Burst nx t p = nx + p.
+Proof. unfold tick_next, next_timeout. destruct (nx + GRACE <? t); reflexivity. Qed.
+
+(* a missed tick: Delay re-schedules one period after now, Skip at the next instant of the
+   original schedule strictly after now *)
+Lemma tick_next_delay nx t p : nx + GRACE < t -> tick_next Delay nx t p = t + p.
+Proof. intros H. unfold tick_next, next_timeout. replace (nx + GRACE <? t) with true by lia. reflexivity. Qed.
+
+Lemma tick_next_skip nx t p : nx + GRACE < t -> 0 < p ->
+  tick_next Skip nx t p = nx + ((t - nx) / p + 1) * p /\ t < tick_next Skip nx t p <= t + p.
+Proof.
+  intros H Hp. unfold tick_next, next_timeout. replace (nx + GRACE <? t) with true by lia.
+  pose proof (N.div_mod (t - nx) p ltac:(lia)) as Hdm. pose proof (N.mod_lt (t - nx) p ltac:(lia)) as Hlt.
+  set (q := (t - nx) / p) in *. set (m := (t - nx) mod p) in *. clearbody q m.
+  split; [|lia]. rewrite N.mul_add_distr_r, N.mul_1_l, (N.mul_comm q p). lia.
+Qed.
+
+(* Burst, over a whole sequence of ticks with work of [busy_k] ns after the k-th: the k-th tick
+   has the value start + k * period whatever the delays, and returns at that instant or, if
+   the task arrives later, at once *)
+Fixpoint burst_log (now start p : N) (k : nat) (busy : list N) : list N :=
+  match busy with
+  | [] => []
+  | d :: r =>
+    let nom := start + N.of_nat k * p in
+    let t := N.max now nom in
+    t :: nom :: (if d =? 0 then burst_log t start p (S k) r else (t + d) :: burst_log (t + d) start p (S k) r)
+  end.
+
+Fixpoint burst_end (now start p : N) (k : nat) (busy : list N) : N :=
+  match busy with
+  | [] => now
+  | d :: r => burst_end (N.max now (start + N.of_nat k * p) + d) start p (S k) r
+  end.
+
+Lemma exp_run_burst busy : forall now start p k r,
+  exp_run now (Some (start + N.of_nat k * p, p, Burst)) (ticks busy ++ r) =
+  burst_log now start p k busy ++
+  exp_run (burst_end now start p k busy) (Some (start + N.of_nat (k + length busy) * p, p, Burst)) r.
+Proof.
+  induction busy as [|d bs IH]; intros now start p k r.
+  - cbn [ticks app burst_log burst_end length]. rewrite Nat.add_0_r. reflexivity.
+  - cbn [ticks app burst_log burst_end length exp_run]. rewrite tick_next_burst.
+    replace (start + N.of_nat k * p + p) with (start + N.of_nat (S k) * p) by lia.
+    replace (k + S (length bs))%nat with (S k + length bs)%nat by lia.
+    destruct (d =? 0) eqn:E.
+    + replace (N.max now (start + N.of_nat k * p) + d) with (N.max now (start + N.of_nat k * p)) by lia.
+      rewrite IH. reflexivity.
+    + cbn [app exp_run]. rewrite IH. reflexivity.
+Qed.
+
+(* the branch a select over sleep(a), sleep(b) reports, spelled out *)
+Lemma sel_code_cases biased a b :
+  sel_code biased a b = if a <? b then 0 else if b <? a then 1 else if biased then 0 else 2.
+Proof.
+  unfold sel_code. destruct (a <? b) eqn:E1.
+  - replace (a <=? b) with true by lia. replace (a =? b) with false by lia. rewrite orb_true_r. reflexivity.
+  - destruct (b <? a) eqn:E2.
+    + replace (a <=? b) with false by lia. reflexivity.
+    + replace (a <=? b) with true by lia. replace (a =? b) with true by lia. destruct biased; reflexivity.
 Qed.
